@@ -229,7 +229,7 @@ def run_driver(ctx, scheds, tag):
     traces = {}
     for p, outp, part in procs:
         try:
-            out, _ = p.communicate(timeout=1800)
+            out, _ = p.communicate(timeout=max(1800, 4 * len(part)))   # thorough shards hold ~2000 schedules at 6 workers
         except subprocess.TimeoutExpired:
             p.kill()
             raise Undecided("engine driver timed out")
